@@ -376,16 +376,16 @@ theorem unexportOwn_inv {uses users : Pk → List Pk} (g : GInv uses users) {t :
       subst h1
       simp at h2
 
-/-- a new entry object at (p, n), where p's table had nothing -/
+/-- a new entry object at (p, n), where p's table had nothing of its own (nothing at all, or an
+    inherited entry that the new one shadows) -/
 theorem create_inv {uses users : Pk → List Pk} (g : GInv uses users) {t : Tab}
-    (h : TInv uses t) {p : Pk} {n : Nm} (hnone : t.cell p n = none) (d : Def) :
+    (h : TInv uses t) {p : Pk} {n : Nm} (hnone : t.cell p n ≠ some p) (d : Def) :
     TInv uses (t.create users p n d) := by
   have hnd : t.defs p n = none := by
     have := h.own p n
-    rw [hnone] at this
     cases hd : t.defs p n with
     | none => rfl
-    | some d' => rw [hd] at this; simp at this
+    | some d' => rw [hd] at this; exact absurd (this.2 rfl) hnone
   let t1 := (t.setDef p n (some d)).setCell p n (some p)
   have hc1 : ∀ p' n', t1.cell p' n' = if p' = p ∧ n' = n then some p else t.cell p' n' :=
     fun p' n' => by simp only [t1, setCell_cell, setDef_cell]
@@ -397,7 +397,7 @@ theorem create_inv {uses users : Pk → List Pk} (g : GInv uses users) {t : Tab}
   have hop : t1.ownExp p n = d.exp := by
     rw [Bool.eq_iff_iff, ownExp_iff, hc1, hd1]
     simp
-  have hpfalse : t.ownExp p n = false := ownExp_false_of_cell (by rw [hnone]; simp)
+  have hpfalse : t.ownExp p n = false := ownExp_false_of_cell hnone
   have hw : TInvW uses t1 (fun q n' => q = p ∧ n' = n) := by
     refine ⟨?_, ?_, ?_⟩
     · intro q n'
@@ -569,6 +569,23 @@ theorem remove_inv {uses users : Pk → List Pk} (g : GInv uses users) {t : Tab}
           exact Or.inl (inheritFirst_none hcell q hq)
         · simp only [hc, if_false] at hcell
           exact Or.inl (h.cmp' hcell hq)
+
+theorem define_inv {uses users : Pk → List Pk} (g : GInv uses users) {t : Tab}
+    (h : TInv uses t) (p : Pk) (n : Nm) (d : Def) : TInv uses (t.define uses users p n d) := by
+  unfold define
+  by_cases hc : t.cell p n = some p
+  · rw [if_pos hc]
+    have hiso : (some d).isSome = (t.defs p n).isSome := by
+      rw [(h.own p n).1 hc]; rfl
+    have hw := setDef_invW (d' := some d) h (p := p) (n := n) hiso
+    have hoe : (t.setDef p n (some d)).ownExp p n = d.exp := by
+      rw [Bool.eq_iff_iff, ownExp_iff, setDef_cell, setDef_defs]
+      simp [hc]
+    dsimp only
+    by_cases he : d.exp = true
+    · rw [if_pos he]; exact push_inv g hw (by rw [hoe]; exact he)
+    · rw [if_neg he]; exact retract_inv g hw (by rw [hoe]; simpa using he)
+  · rw [if_neg hc]; exact create_inv g h hc d
 
 theorem useCopy_cell (t : Tab) (obj pkg p : Pk) (n : Nm) :
     (t.useCopy obj pkg).cell p n =
@@ -790,6 +807,18 @@ theorem create_bodies {t : Tab} (h : Bodies t) (users : Pk → List Pk) (p : Pk)
   · rw [if_pos he]; intro q m d' hq; rw [push_defs] at hq; exact h1 q m d' hq
   · rw [if_neg he]; exact h1
 
+theorem define_bodies {t : Tab} (h : Bodies t) (uses users : Pk → List Pk) (p : Pk) (n : Nm)
+    (d : Def) (hd : d.val.isSome = true) : Bodies (t.define uses users p n d) := by
+  unfold define
+  split
+  · have h1 : Bodies (t.setDef p n (some d)) :=
+      setDef_bodies h p n _ (by intro x hx; cases hx; exact hd)
+    dsimp only
+    split
+    · intro q m d' hq; rw [push_defs] at hq; exact h1 q m d' hq
+    · intro q m d' hq; rw [retract_defs] at hq; exact h1 q m d' hq
+  · exact create_bodies h users p n d hd
+
 theorem remove_defs_sub (t : Tab) (uses users : Pk → List Pk) (p : Pk) (n : Nm) (q : Pk) (m : Nm)
     (d : Def) (h : (t.remove uses users p n).defs q m = some d) : t.defs q m = some d := by
   unfold remove at h
@@ -849,6 +878,17 @@ theorem create_keeps {t : Tab} (users : Pk → List Pk) (p : Pk) (n : Nm) (d : D
   split
   · rw [push_defs, setCell_defs]; exact setDef_some_keeps h
   · rw [setCell_defs]; exact setDef_some_keeps h
+
+theorem define_keeps {t : Tab} (uses users : Pk → List Pk) (p : Pk) (n : Nm) (d : Def) {q : Pk}
+    {m : Nm} (h : (t.defs q m).isSome = true) :
+    ((t.define uses users p n d).defs q m).isSome = true := by
+  unfold define
+  split
+  · dsimp only
+    split
+    · rw [push_defs]; exact setDef_some_keeps h
+    · rw [retract_defs]; exact setDef_some_keeps h
+  · exact create_keeps users p n d h
 
 /-- `remove p n` deletes at most the entry object (p, n) -/
 theorem remove_keeps {t : Tab} (uses users : Pk → List Pk) (p : Pk) (n : Nm) {q : Pk} {m : Nm}
